@@ -73,6 +73,15 @@ def gen_history(rng, tag, shipped):
         defs = defs + [["define", x, x, ["dimname", "length"]] for x in dn]
         extra.append(["declare", ["u", dn[0]], ["d", "1.2345678901234"], ["u", dn[1]]])
         extra.append(["declare", ["u", dn[1]], ["d", "3"], ["u", dn[2]]])
+        # ... and a unit of a derived dimension (an energy) stated as a Decimal number of joules, asked inside compound units:
+        # the planner spells it out, and the spelled-out plan is what must not remember the coarse context
+        de = f"zq{tag}dece"
+        defs = defs + [["define", de, de, ["dimname", "energy"]]]
+        extra.append(["declare", ["u", de], ["d", "1.234567890123456789012345"], ["mul", ["u", "kilogram"], ["div", ["pow", ["u", "meter"], 2], ["pow", ["u", "second"], 2]]]])
+        watt_t = ["mul", ["u", "kilogram"], ["div", ["pow", ["u", "meter"], 2], ["pow", ["u", "second"], 3]]]
+        dec_queries.append(["convert", ["d", "1"], ["div", ["u", de], ["u", "second"]], watt_t])
+        dec_queries.append(["convert", ["d", "1"], watt_t, ["div", ["u", de], ["u", "second"]]])
+        dec_queries.append(["convert", ["d", "2.5"], ["mul", ["u", de], ["u", "meter"]], ["mul", ["mul", ["u", "kilogram"], ["div", ["pow", ["u", "meter"], 2], ["pow", ["u", "second"], 2]]], ["u", "meter"]]])
         for a_, b_ in ((dn[0], dn[2]), (dn[2], dn[0]), (dn[0], dn[1])):
             dec_queries.append(["convert", ["d", "1"], ["u", a_], ["u", b_]])
             dec_queries.append(["convert", ["d", "2.5"], ["pow", ["u", a_], 2], ["pow", ["u", b_], 2]])
